@@ -54,6 +54,13 @@ def run(ctx, res):
     got = {}
     zero = set()
     magic = None
+    # the final image of the buffer: events in order, a later store replaces what an earlier one left at the same offsets
+    def claim(off, n):
+        for o in range(off, off + n):
+            zero.discard(o)
+        for o2 in [o2 for o2 in got if off <= o2 < off + n or o2 <= off < o2 + 8]:
+            if o2 != off:
+                del got[o2]
     for e in p.events:
         if e.kind == "call" and e.a == "mtbl_fixed_encode64":
             base, off = APE.split_off(e.b[0])
@@ -65,17 +72,24 @@ def run(ctx, res):
                 continue
             if off in got:
                 res.bad("C10.R1", site(mw, "encode64(%s)" % fld), "offset %d written twice (%s and %s)" % (off, got[off], fld), mw.loc(e.node))
+            claim(off, 8)
             got[off] = fld
         elif e.kind == "call" and e.a == "mtbl_fixed_encode32":
             base, off = APE.split_off(e.b[0])
             magic = (base, off, e.b[1], e.node)
+            if base == bufname:
+                claim(off, 4)
         elif e.kind == "store" and e.a.startswith("*"):
             base, off = APE.split_off(("s", e.a[1:]))
             if base == bufname and e.b == ("c", 0):
+                claim(off, 1)
                 zero.add(off)
         elif e.kind == "call" and e.a in ("memset", "__builtin_memset") and len(e.b) == 3:
             base, off = APE.split_off(e.b[0])
             if base == bufname and e.b[1] == ("c", 0) and e.b[2][0] == "c":
+                claim(off, e.b[2][1])
+                if magic is not None and magic[0] == bufname and off <= magic[1] < off + e.b[2][1]:
+                    magic = None     # zeroed after it was written
                 zero.update(range(off, off + e.b[2][1]))
     for r in rows:
         res.check(got.get(r["offset"]) == r["field"], "C10.R1", site(mw, "offset%d" % r["offset"]),
@@ -231,57 +245,10 @@ def run(ctx, res):
                 res.check(not st, "C10.R2", site(add, "%s:%s" % (tag, fld)), "refused add leaves %s alone" % fld,
                           "refused add updates %s" % fld, add.loc(st[0].node) if st else None, p.describe(add))
 
-    ev = APE.run(prog, cg, wdb, bound=APE.BOUND)
-    for p in ev.paths:
-        if p.end != "exit":
-            continue
-        wb = p.calls("_mtbl_writer_write_block")
-        if len(wb) != 1:
-            res.bad("C10.R2", site(wdb, "framing-call"), "a data block is framed %d times on one path" % len(wb), wdb.loc(wdb.body), p.describe(wdb))
-            continue
-        bw = APE.vstr(wb[0].c)
-        for fld, operand in (("count_data_blocks", "#1"), ("bytes_data_blocks", bw)):
-            st = stores_of(p, fld)
-            good = len(st) == 1 and incr_ok(st[0], operand)
-            res.check(good, "C10.R2", site(wdb, fld), "%s += %s exactly once per written block" % (fld, "bytes written" if operand == bw else 1),
-                      "per written data block %s is updated %d time(s) with %s" % (fld, len(st), [APE.vstr(x.b) for x in st]),
-                      wdb.loc(st[0].node) if st else wdb.loc(wdb.body), p.describe(wdb))
-
-    ev = APE.run(prog, cg, fin, bound=APE.BOUND)
-    for p in ev.paths:
-        if p.end != "exit":
-            continue
-        evs = [e for e in p.events if e.kind != "branch"]
-        join = [i for i, e in enumerate(evs) if e.kind == "call" and e.a == "result_handler_destroy"]
-        wb = [i for i, e in enumerate(evs) if e.kind == "call" and e.a == "_mtbl_writer_write_block"]
-        mwc = [i for i, e in enumerate(evs) if e.kind == "call" and e.a == "metadata_write"]
-        ibo = [i for i, e in enumerate(evs) if e.kind == "store" and e.a.endswith("m.index_block_offset")]
-        bib = [i for i, e in enumerate(evs) if e.kind == "store" and e.a.endswith("m.bytes_index_block")]
-        po = [i for i, e in enumerate(evs) if e.kind == "store" and e.a.endswith("->pending_offset")]
-        good = len(join) == 1 and len(wb) == 1 and len(mwc) == 1 and len(ibo) == 1 and len(bib) == 1
-        if not good:
-            res.bad("C10.R2", site(fin, "shape"), "finish does not join, frame the index once, record its offset and size once and "
-                    "write the trailer once (join %d, frame %d, trailer %d, offset %d, size %d)" % (len(join), len(wb), len(mwc), len(ibo), len(bib)),
-                    fin.loc(fin.body), p.describe(fin))
-            continue
-        res.check(join[0] < ibo[0] < mwc[0] and join[0] < wb[0], "C10.R2", site(fin, "order"),
-                  "join < index block write and offset record < trailer write",
-                  "finish records the index block before joining the result handler or after writing the trailer", fin.loc(evs[ibo[0]].node))
-        v = APE.vstr(evs[ibo[0]].b)
-        # the value recorded must be the cursor as it stood when the index block's first byte went out: the very symbol the
-        # advance of the cursor is computed from (value identity, not statement order: the advance may sit in a helper)
-        is_cursor = re.match(r"^\w+->pending_offset@\d+$", v) is not None
-        base_ok = True
-        for i in po:
-            terms, _c = linsum(APE.vstr(evs[i].b), tags=True)
-            if v not in terms and APE.vstr(evs[i].b) != v:
-                base_ok = False
-        res.check(is_cursor and base_ok, "C10.R2", site(fin, "index_block_offset"),
-                  "index_block_offset := the cursor value the index bytes were written at (the value the advance starts from)",
-                  "index_block_offset := %s, which is not the cursor value the index block was written at" % v, fin.loc(evs[ibo[0]].node))
-        res.check(evs[bib[0]].b == evs[wb[0]].c, "C10.R2", site(fin, "bytes_index_block"),
-                  "bytes_index_block := bytes returned by the framing function for the index block",
-                  "bytes_index_block := %s" % APE.vstr(evs[bib[0]].b), fin.loc(evs[bib[0]].node))
+    # per-block statistics, index block offset / size and the order of the finishing steps: decided on the bytes and stores
+    # along the paths of the block-writing functions with their helpers evaluated in line (rules/framerule.py)
+    from . import framerule
+    framerule.counters(ctx, res, "C10.R2")
 
     ev = APE.run(prog, cg, ini, bound=APE.BOUND)
     want = {"data_block_size": r"opt\.block_size", "compression_algorithm": r"opt\.compression_type", "file_version": None}
